@@ -262,12 +262,15 @@ def valid_cfg(d):
 
 
 def run(r):
-    r.rule = ("seg: every segment sequence of length <= 2 and every text-tag-text triple over the whitespace/newline/CR/brace/"
-              "look-alike alphabet x {variable, if/endif, comment, raw} x 9 marker pairs x 8 settings exhaustively for the default "
-              "delimiters (thorough: every length-3 sequence), sampled sequences of length 3-4 over a larger alphabet, and the same "
-              "vocabulary under 10 custom delimiter families; prog: random core-fragment programs rewritten to each family; line: "
-              "random line statement/comment layouts x 3 line endings; cfg: valid and invalid delimiter sets.  A case is non-trivial "
-              "when it is distinct, delimiter-free and contains at least one tag")
+    r.rule = ("seg: default delimiters, all 8 settings, exhaustively: every sequence of <= 2 items, every text-tag-text and tag-text-tag "
+              "triple (thorough: every sequence of 3 items) over 12 whitespace/newline/CR/brace/look-alike texts x {variable, if/endif, "
+              "comment} x 9 marker pairs + raw blocks (outer and inner markers, 16 contents); 60k (thorough 300k) sampled sequences of "
+              "3-4 items over 44 texts and the full raw set; the same vocabulary with look-alike texts under 10 custom delimiter "
+              "families (prefix-sharing, nested-prefix, single-brace, LaTeX, shared end, contained start, line prefixes): all sequences "
+              "of <= 2 items x 2-3 settings + sampled longer ones.  prog: random core-fragment programs (for/if/else/set/filter/with/"
+              "raw/comments/expressions with strings containing delimiters) rewritten to each family.  line: random line statement / "
+              "line comment layouts x 3 line endings x 8 settings.  cfg: 11 valid and 10 invalid delimiter sets.  A seg case is "
+              "non-trivial when it is distinct, delimiter-free and contains at least one tag")
     r.assumptions = ["tag interiors other than the fixed vocabulary are lexed by tokenize_block_or_var as validated by the prog stream only",
                      "byte offsets of the Rust lexer correspond to character positions of the model (UTF-8 self-synchronisation)",
                      "sequences longer than those enumerated behave as the induction in lex_eq_spec says (proved for the model)"]
